@@ -1277,7 +1277,10 @@ impl Server {
         let mut query = String::from("");
 
         for (key, value) in parameter_diff {
-            query.push_str(&format!("SET {} TO '{}';", key, value));
+            // The value is client supplied (e.g. application_name): quote it as an escape string
+            // constant so that quotes and backslashes reach the server as written.
+            let value = value.replace('\\', "\\\\").replace('\'', "''");
+            query.push_str(&format!("SET {} TO E'{}';", key, value));
         }
 
         let res = self.query(&query).await;
